@@ -1,4 +1,6 @@
-"""Restart schedules on the REAL code: property monitors for C06 / C07 (no model involved).
+"""Restart schedules on the REAL code: property monitors for C06 / C07 (no model involved); for C10 only the
+`members` family and random schedules with membership changes run, and only the two member-set signatures are
+reported (membership across restarts of journaled nodes — C10's own components never restart a node).
 
 Real journaled `SyncObj` voters (journal only, and journal + dump file; `useFork` False; tiny batch
 sizes) run under harness/sim.py.  Nodes are killed (`sim.kill`: the object is abandoned, nothing is
@@ -57,7 +59,7 @@ import time
 from harness import monitors
 from harness.sim import Sim
 
-PROPERTIES = ["C06", "C07"]
+PROPERTIES = ["C06", "C07", "C10"]
 ORDER = 60
 
 IDS = ["a", "b", "c", "d", "e"]
@@ -70,8 +72,14 @@ C07_SIGS = ("restart:vote-granted-twice-in-term", "election:vote-granted-twice-i
             "election:older-term-append-accepted", "election:older-term-vote-granted")
 
 
+C10_SIGS = ("restart:members-not-fold-of-journal-over-dump", "restart:member-sets-differ-at-quiescence")
+
+
 def for_property(pid, sig):
-    """Which property a signature belongs to (both components report under the property being checked)."""
+    """Which property a signature belongs to (both components report under the property being checked).
+    C10 (membership across restarts): ONLY the member-set signatures, whatever else a schedule trips."""
+    if pid == "C10":
+        return sig in C10_SIGS
     is7 = sig in C07_SIGS
     if pid == "C07":
         return is7 or sig.startswith("restart:recovery-raises") or sig.startswith("exception-escaped")
@@ -90,6 +98,17 @@ def dump_members(sim, dump_path):
         return (set(getattr(n, "id", n) for n in data[3]), data[1][1])
     except Exception:
         return None
+
+
+def membership_entries(sim, obj):
+    """[(index, term, 'add'|'rem', node id)] of the membership commands in the node's journal"""
+    MEM = bytes([sim.so._COMMAND_TYPE.MEMBERSHIP])
+    out = []
+    for (cmd, idx, term) in obj._SyncObj__raftLog[:]:
+        if isinstance(cmd, bytes) and cmd[:1] == MEM:
+            req = sim.so.pickle.loads(cmd[1:])
+            out.append((idx, term, req[0], req[1]))
+    return out
 
 
 def members_mismatch(sim, obj, i, V, dump):
@@ -152,6 +171,7 @@ class Runner(object):
                        dump=bool(spec.get("dump")))
         self.has_dump_conf = bool(spec.get("dump"))
         self.members = bool(conf.get("dynamicMembershipChange"))
+        self.held_at_restart = []                      # (node, index, term) of membership entries in a restarted node's journal
         self.mon = monitors.StepMonitors(self.sim)
         self.events = []
         self.viol = []
@@ -580,8 +600,12 @@ class Runner(object):
             self._after_first_tick(e[1], b)
             if self.members:
                 self.cov["restart:members-checked"] += 1
+                ments = membership_entries(sim, sim.objs[e[1]])
+                self.held_at_restart += [(e[1], x[0], x[1]) for x in ments]
                 if ctx.get("dump"):
                     self.cov["restart:members-checked-over-dump"] += 1
+                    if any(x[0] > ctx["dump"][1] for x in ments):
+                        self.cov["restart:members-checked-over-dump-with-later-entries"] += 1
                 bad = members_mismatch(sim, sim.objs[e[1]], e[1], self.V, ctx.get("dump"))
                 if bad:
                     self.flag("restart:members-not-fold-of-journal-over-dump", bad)
@@ -654,6 +678,20 @@ class Runner(object):
         return self.sim.leader(among or self.V_live())
 
     def finale(self):
+        self._finale()
+        # coverage: a membership entry that a restarted node found in its journal and that was dropped afterwards
+        sim = self.sim
+        seen = set()
+        for (i, idx, term) in self.held_at_restart:
+            if (i, idx, term) in seen or i not in sim.objs:
+                continue
+            seen.add((i, idx, term))
+            lg = sim.log_of(i)
+            cur = [x for x in lg if x[0] == idx]
+            if (cur and cur[0][1] != term) or (not cur and lg and idx > lg[-1][0]):
+                self.cov["restart:membership-entry-held-at-restart-later-dropped"] += 1
+
+    def _finale(self):
         """heal everything, converge, push two more commands through, then the end-of-run statements"""
         sim = self.sim
         if self.aborted:
@@ -805,7 +843,12 @@ def random_schedule(r, rng, n_events):
         elif x < 0.72:
             r.rounds(rng.choice([1, 1, 2, 4]))
         elif x < 0.82:
-            submit()
+            if r.members and rng.random() < 0.3:
+                L = sim.leader(live)
+                r.ev("member", L if (L is not None and rng.random() < 0.8) else rng.choice(live),
+                     rng.choice(["add", "add", "rem"]), rng.choice(["x", "y"]))
+            else:
+                submit()
         elif x < 0.86:
             r.ev("compact", rng.choice(live))
             cmd[0] += 0
@@ -1151,17 +1194,20 @@ def _work(args):
         return [{"label": "deadline", "cov": {"deadline-cut": 1}, "violations": [], "n_events": 0, "hash": None}]
     os.makedirs(tmp, exist_ok=True)
     try:
-        if item[0] == "random":
+        if item[0] in ("random", "random-members"):
             _, k, n_events = item
-            rng = _random.Random("%d/restart/random/%d" % (base_seed, k))
+            rng = _random.Random("%d/restart/%s/%d" % (base_seed, item[0], k))
             spec = {"n": [3, 2, 5, 3, 4][k % 5], "dump": k % 3 != 1, "conf": draw_conf(rng),
                     "seed": base_seed * 7919 + k}
+            if item[0] == "random-members":
+                spec["n"] = [3, 3, 4][k % 3]
+                spec["conf"]["dynamicMembershipChange"] = True
             r = Runner(repo, spec, tmp)
             try:
                 random_schedule(r, rng, n_events)
             finally:
                 r.close()
-            res.append(summarize(r, "random/%d" % k, spec))
+            res.append(summarize(r, "%s/%d" % (item[0], k), spec))
         elif item[0] == "directed":
             _, name, n, dump, stride, offset, kinds = item[:7]
             shard = item[7] if len(item) > 7 else (0, 1)
@@ -1186,6 +1232,20 @@ def _work(args):
 
 def plan(ctx):
     items = []
+    if ctx.pid == "C10":
+        # membership across restarts only: the `members` family and random schedules with membership changes
+        quick = ctx.tier == "quick"
+        kinds = ("between", "at-send", "repeat")
+        K = 4 if quick else 12
+        for j in range(K):
+            items.append(("directed", "members", 3, True, 6 if quick else 1, ctx.seed, kinds, (j, K)))
+        if not quick:
+            for j in range(K):
+                items.append(("directed", "members", 3, False, 1, ctx.seed, kinds, (j, K)))
+                items.append(("directed", "members", 4, True, 1, ctx.seed, kinds, (j, K)))
+        for k in range(ctx.scale(8, 1500)):
+            items.append(("random-members", k, ctx.scale(200, 420)))
+        return items
     if os.path.isdir(CORPUS):
         for fn in sorted(os.listdir(CORPUS)):
             if fn.endswith(".json") and fn.startswith("sched-"):
@@ -1244,7 +1304,7 @@ def plan(ctx):
 def run(ctx):
     t0 = time.time()
     items = plan(ctx)
-    budget = ctx.scale(17.0, 270.0)
+    budget = ctx.scale(5.0 if ctx.pid == "C10" else 17.0, 270.0)
     deadline = t0 + budget
     root = ctx.tmpdir()
     # long directed items first, random ones fill the remaining time
@@ -1298,7 +1358,11 @@ def assemble(ctx, results, t0, planned, skipped=0):
            "disagreements": [], "violations": viols, "wall_s": round(time.time() - t0, 2),
            "notes": "planned items %d, schedules run %d, skipped by deadline %d" % (planned, cases, skipped + cov.get("deadline-cut", 0))}
     need = ["kill", "restart", "kill:leader", "kill:all-dead", "kill-at-send", "acked-entries-checked", "finale:converged"]
-    if ctx.pid == "C06":
+    if ctx.pid == "C10":
+        need = ["kill", "restart", "member:add", "member:rem", "finale:member-sets-compared",
+                "restart:members-checked-over-dump-with-later-entries",
+                "restart:membership-entry-held-at-restart-later-dropped"]
+    elif ctx.pid == "C06":
         need += ["restart:dump-loaded", "success-callbacks-checked"]
     else:
         need += ["probe_vote", "restart:had-voted-in-term"]
